@@ -17,6 +17,9 @@ def call_builtin(ex: Any, fv: VFunc, args: List[V], kwargs: Dict[str, V], st: St
     if f is isinstance:
         x, c = args
         classes = list(c.items) if isinstance(c, VTuple) else [c]
+        classes = [ex.narrow(k, st) for k in classes]
+        if any(isinstance(k, VUnion) for k in classes):
+            raise Unsupported("isinstance against a class value of undetermined kind")
         yield ex.isinstance_v(x, classes), st
         return
     if f is len:
